@@ -30,12 +30,14 @@ Fold(x, e, dead) ==
     [] e.e = "ConnLost"  -> IF x.q # <<>> /\ Head(x.q)[1] = "lost"
                             THEN <<ConnLost(Pop(x), Head(x.q)[3]), "">> ELSE <<x, "connection_lost-not-next">>
     [] e.e = "FactoryRet" /\ e.k = "ok" ->
-                            IF x.st = "wait" /\ x.made = "done" THEN <<FactoryOk(x), "">> ELSE <<x, "factory-returned-unconnected">>
-    [] e.e = "StartRet"  -> IF e.k = "ok" THEN (IF x.st = "wait2" /\ x.made = "done" THEN <<StartOk(x), "">>
-                                                 ELSE <<x, "start-ok-unconnected">>)
-                            ELSE IF e.s = "TransportError" /\ x.st \in {"wait", "wait2"} /\ x.made = "pend"
+                            IF x.st = "wait" /\ x.stW THEN <<FactoryOk(x), "">> ELSE <<x, "factory-returned-unawoken">>
+    [] e.e = "StartRet"  -> IF x.st = "none"        \* the model's start() ended with the factory's return: same outcome?
+                            THEN <<x, IF x.rets # <<>> /\ x.rets[1][1] = "start" /\ Last(x) = Out(e) THEN "" ELSE "start-outcome">>
+                            ELSE IF e.k = "ok" THEN (IF x.st = "wait2" /\ x.stW THEN <<StartOk(x), "">>
+                                                      ELSE <<[x EXCEPT !.st = "none"], "start-ok-unawoken">>)
+                            ELSE IF e.s = "TransportError" /\ ~x.stW /\ x.made = "pend"
                                  THEN <<StartTimeout(x), "">>
-                            ELSE IF e.s = "CancelledError" /\ x.st \in {"wait", "wait2"} /\ x.made = "cancelled"
+                            ELSE IF e.s = "CancelledError" /\ x.made = "cancelled"
                                  THEN <<StartCancelled(x), "">>
                             ELSE <<[x EXCEPT !.st = "none"], "start-outcome">>
     \* (a second stop() while one is under way waits for the same notification: no step of its own)
